@@ -107,9 +107,34 @@ def build_attr_lists(maxlen, ci):
     return g.ElfFile([g.Unit(root, version, osz)])
 
 
+UNIT_KINDS = ["DW_TAG_compile_unit", "DW_TAG_partial_unit", "DW_TAG_type_unit", "DW_TAG_skeleton_unit"]
+
+
+def kind_cases(maxunits):
+    for n in range(1, maxunits + 1):
+        for kinds in itertools.product(range(len(UNIT_KINDS)), repeat=n):
+            for osz in (4, 8):
+                yield ("kinds", list(kinds), osz)
+
+
+def build_unit_kinds(kinds, osz):
+    """DWARF 5 file whose units are of the given kinds (compile, partial, type with signature and type DIE, skeleton)."""
+    units = []
+    for ui, k in enumerate(kinds):
+        tag = UNIT_KINDS[k]
+        t = g.Die("DW_TAG_structure_type", [g.Attr("DW_AT_name", "DW_FORM_string", b"S%d" % ui), g.Attr("DW_AT_byte_size", "DW_FORM_data1", 4)],
+                  [g.Die("DW_TAG_member", [g.Attr("DW_AT_name", "DW_FORM_string", b"m")])])
+        kids = [t, g.Die("DW_TAG_variable", [g.Attr("DW_AT_name", "DW_FORM_string", b"v%d" % ui)])]
+        root = g.cu_root(b"k%d.c" % ui, version=5, offset_size=osz, children=kids, tag=tag, low_pc=None)
+        units.append(g.Unit(root, 5, osz, type_signature=0x1122334455667700 + ui, type_die=t, dwo_id=0xabcdef00 + ui))
+    return g.ElfFile(units)
+
+
 def build(desc):
     if desc[0] == "attrs":
         return build_attr_lists(desc[1], desc[2])
+    if desc[0] == "kinds":
+        return build_unit_kinds(desc[1], desc[2])
     n, shape, flagged, ci, sib = desc
     version, osz = configs(True)[ci]
     units = []
@@ -176,6 +201,8 @@ def _worker(d, task, extra):
     out = {"files": 0, "queries": 0, "results": 0, "dies": 0, "bad": []}
     if ndies == "attrs":
         src = [("attrs", thorough, k)]
+    elif ndies == "kinds":
+        src = itertools.islice(kind_cases(thorough), k, None, m)
     else:
         src = itertools.islice(cases(ndies, thorough), k, None, m)
     for desc in src:
@@ -189,6 +216,10 @@ def _worker(d, task, extra):
         out["results"] += nr
         out["dies"] += len(view.raw_entries())
         for qid, what in bad[:2]:
+            if desc[0] == "kinds":
+                out["bad"].append(("file:%s|%s" % (json.dumps(desc), qid), "DWARF 5 units of kinds %s, %d-byte offsets: %s" % (
+                    [UNIT_KINDS[k][7:] for k in desc[1]], desc[2], what), {"desc": json.dumps(desc), "qid": qid}))
+                continue
             if desc[0] == "attrs":
                 out["bad"].append(("file:%s|%s" % (json.dumps(desc), qid), "attribute-list family (lists up to %d entries, DWARF %d, %d-byte offsets): %s" % (
                     desc[1], configs(True)[desc[2]][0], configs(True)[desc[2]][1], what), {"desc": json.dumps(desc), "qid": qid}))
@@ -217,7 +248,9 @@ def replay(case):
             n, shape, ci = json.loads(case["order"])
             return bool(_order_worker(d, [(n, [to_tuple(t) for t in shape], ci)], None)["bad"])
         desc = json.loads(case["desc"])
-        if desc[0] != "attrs":
+        if desc[0] == "kinds":
+            desc = ("kinds", desc[1], desc[2])
+        elif desc[0] != "attrs":
             n, shape, flagged, ci, sib = desc
             desc = (n, [to_tuple(t) for t in shape], tuple((u, tuple(p)) for u, p in flagged), ci, sib)
         elf = build(desc)
@@ -238,7 +271,8 @@ def main(ctx):
     m = 512
     # every shape is written in all 8 (version, offset size) configurations in both tiers
     alen = 4 if thorough else 3
-    tasks = [("attrs", alen, ci, 1) for ci in range(8)] + [(ndies, True, k, m) for k in range(m)]
+    kmax = 4 if thorough else 3
+    tasks = [("attrs", alen, ci, 1) for ci in range(8)] + [("kinds", kmax, k, 16) for k in range(16)] + [(ndies, True, k, m) for k in range(m)]
     for r in common.pmap(ctx, _worker, tasks, bins["zwdrv"], "full", timeout=120):
         for k in ("files", "queries", "results", "dies"):
             ctx.count(k, r[k])
@@ -262,7 +296,7 @@ def main(ctx):
         "rule": "state = one generated ELF file (forest shape x flagged-leaf subset x version/offset size x sibling attributes); transition = one battery query executed "
                 "on it and compared, result by result, with the generator's model; distinct = distinct file",
         "bounds": {"max_dies": ndies, "max_units": 3, "versions": [2, 3, 4, 5], "offset_sizes": [4, 8], "dies_checked": ctx.counts.get("dies", 0),
-                   "configs_per_shape": "all 8", "unit_visit_orders": "every permutation of the units of every forest of <= %d DIEs in 2-3 units, raw and cooked, each on a freshly opened file" % omax, "attribute_lists": {"alphabet": [a[:2] for a in ATTR_ALPHABET], "max_entries": alen,
+                   "configs_per_shape": "all 8", "unit_kinds": "DWARF 5: every sequence of up to %d units over compile / partial / type / skeleton units, 4- and 8-byte offsets" % kmax, "unit_visit_orders": "every permutation of the units of every forest of <= %d DIEs in 2-3 units, raw and cooked, each on a freshly opened file" % omax, "attribute_lists": {"alphabet": [a[:2] for a in ATTR_ALPHABET], "max_entries": alen,
                                                                        "note": "every list, repeated names included, in all 8 configurations"}},
     }
     return ctx.finish("model_checking", cov, [
